@@ -44,7 +44,7 @@ pub enum Op {
     },
     /// `Commands` forms issued from a one-shot driver system. via: 0 `Commands::syscall`, 1
     /// `Commands::syscall_with_validation`, 2 `Commands::syscall_once`, 3 `Commands::syscall_once_with_validation`,
-    /// 4..7 the same four through `EntityCommands`
+    /// 4..7 the same four through `EntityCommands`, 8 `World::syscall` of the same unit function (same key as 0, 1, 4, 5)
     CmdSyscall {
         f: Fun,
         x: u32,
@@ -269,7 +269,18 @@ fn exec_op(w: &mut World, op: &Op) {
                     }
                 };
             }
-            w.syscall_once((x, call, nested), move |In(input): In<Input>, mut c: Commands| match via % 8 {
+            if via % 9 == 8 {
+                // the same unit function called directly: shares the type-keyed state with the `Commands` forms
+                let input = (x, call, nested);
+                match i {
+                    0 => w.syscall(input, ord_sys_unit::<0>),
+                    1 => w.syscall(input, ord_sys_unit::<1>),
+                    _ => w.syscall(input, ord_sys_unit::<2>),
+                }
+                ret(&log, call, Outc::Queued);
+                return;
+            }
+            w.syscall_once((x, call, nested), move |In(input): In<Input>, mut c: Commands| match via % 9 {
                 0 => unit_fun!(i, s, c.syscall(input, s)),
                 1 => unit_fun!(i, s, c.syscall_with_validation(input, s, note_validation)),
                 2 => unit_fun!(i, s, c.syscall_once(input, s)),
@@ -412,8 +423,8 @@ fn gen_op(r: &mut Rng, depth: u32, max_depth: u32) -> Op {
     match r.below(21) {
         0..=4 => Op::Syscall { f: gen_fun(r), x, nested, via: r.below(5) as u8 },
         5 => Op::SyscallOnce { f: gen_fun(r), x, nested, via: r.below(2) as u8 },
-        6 => Op::CmdSyscall { f: gen_fun(r), x, nested, via: r.below(8) as u8 },
-        7..=9 => Op::Named { name: r.below(NN as usize) as u8, f: gen_fun(r), x, nested },
+        6..=7 => Op::CmdSyscall { f: gen_fun(r), x, nested, via: r.below(9) as u8 },
+        8..=9 => Op::Named { name: r.below(NN as usize) as u8, f: gen_fun(r), x, nested },
         10..=11 => Op::NamedDirect { name: r.below(NN as usize) as u8, f: gen_fun(r), x, nested },
         12 => {
             if r.chance(50) {
@@ -605,7 +616,7 @@ impl ModelFull {
                     let i = match f {
                         Fun::Ord(i) | Fun::Excl(i) => *i,
                     };
-                    let r = if matches!(via % 8, 2 | 3 | 6 | 7) {
+                    let r = if matches!(via % 9, 2 | 3 | 6 | 7) {
                         // the `once` forms never cache the system
                         self.keys_touched.insert(format!("cmd-syscall-once:{i}"));
                         self.bodies.insert(call, (Fun::Ord(i), 1));
